@@ -566,9 +566,9 @@ Proof.
   destruct x; simpl; try (exists k; exact IH). exists (S k). simpl. rewrite IH. reflexivity.
 Qed.
 
-(* the workers of a configuration are started by the start that succeeds *)
+(* the workers of a configuration are started by its startup callbacks *)
 Lemma grow_add_probers step effs g g' :
-  grow step g g' -> grow step g (set_probers g' (g_probers g' ++ probes_of step effs)).
+  grow step g g' -> grow step g (add_probers step effs g').
 Proof.
   intros [A1 A2 A3 A5 [p A6]]. destruct (probes_of_repeat step effs) as [k K].
   constructor; simpl; auto. exists (p + k)%nat. rewrite A6, K, <- app_assoc, repeat_app. reflexivity.
@@ -589,7 +589,7 @@ Proof.
   pose proof (sext_grow step _ _ (proj1 (start_servers_sext _ _ _ _ _ _ _ E3))) as G3.
   assert (G : grow step g g3) by (eapply grow_trans; eauto; eapply grow_trans; eauto).
   destruct r3; injection H as <- <- <-;
-    [apply grow_add_probers; exact G|apply grow_set_socks; exact G|apply grow_set_socks; exact G].
+    apply grow_add_probers; [exact G|apply grow_set_socks; exact G|apply grow_set_socks; exact G].
 Qed.
 
 Lemma start_with_grow step e c old g r g' oi :
@@ -1014,10 +1014,22 @@ Proof.
     + apply IH in H. exact H.
 Qed.
 
+Lemma probes_of_no_proxy step effs : no_proxy effs = true -> probes_of step effs = [].
+Proof.
+  induction effs as [|x effs IH]; [reflexivity|]. simpl. intros N. apply andb_true_iff in N as [N1 N2].
+  destruct x; try discriminate; apply IH; exact N2.
+Qed.
+
+(* the workers are started by the startup callbacks of `proxy`, the last ones to run: a start that fails leaves
+   workers behind only if it got as far as startServers, i.e. only if a listener of a configuration with a
+   proxy health check fails to bind *)
+Definition no_probe_leak (c : cfg) : bool := no_proxy (c_effs c) || negb (existsb is_busy (c_addrs c)).
+
 Lemma start_with_failed_probers step e c old g r g' oi :
+  no_probe_leak c = true ->
   start_with step e c old g = (r, g', oi) -> r <> ROk -> g_probers g' = g_probers g.
 Proof.
-  unfold start_with. intros H NR.
+  unfold start_with. intros NL H NR.
   destruct (start_body step e c old g) as [[r0 gb] oi0] eqn:B.
   assert (RB : r0 <> ROk -> g_probers gb = g_probers g).
   { revert B. unfold start_body.
@@ -1030,7 +1042,13 @@ Proof.
     destruct r2; try (intros B; injection B as <- <- <-; intros _; congruence).
     destruct (start_servers old (c_addrs c) g2 []) as [[r3 g3] srv] eqn:E3.
     pose proof (s_probers _ _ (proj1 (start_servers_sext _ _ _ _ _ _ _ E3))) as R3.
-    destruct r3; intros B; injection B as <- <- <-; intros NR0; simpl; congruence. }
+    assert (LK : r3 <> ROk -> probes_of step (c_effs c) = []).
+    { intros N3. unfold no_probe_leak in NL. apply orb_true_iff in NL as [NP|NB].
+      - apply probes_of_no_proxy. exact NP.
+      - apply negb_true_iff in NB. pose proof (start_servers_no_busy _ _ _ _ _ _ _ NB E3). congruence. }
+    destruct r3; intros B; injection B as <- <- <-; intros NR0; [congruence|..];
+      cbn [add_probers set_probers set_socks g_probers]; rewrite LK by discriminate;
+      rewrite app_nil_r; congruence. }
   destruct r0; injection H as <- <- <-; [congruence|apply RB; discriminate|apply RB; discriminate].
 Qed.
 
@@ -1046,11 +1064,11 @@ Proof.
 Qed.
 
 Lemma start_with_harmless step e c old g r g' oi :
-  socks_ok g -> no_log (c_effs c) = true ->
+  socks_ok g -> no_log (c_effs c) = true -> no_probe_leak c = true ->
   start_with step e c old g = (r, g', oi) -> r <> ROk -> same_but_cache g g'.
 Proof.
-  intros T NL H NR.
-  pose proof (start_with_failed_probers _ _ _ _ _ _ _ _ H NR) as PB.
+  intros T NL NPL H NR.
+  pose proof (start_with_failed_probers _ _ _ _ _ _ _ _ NPL H NR) as PB.
   pose proof (start_with_grow _ _ _ _ _ _ _ _ H) as G.
   destruct (start_with_socks _ _ _ _ _ _ _ _ T H) as (_ & _ & KO). destruct (KO NR) as [KS KN].
   pose proof (start_with_hooks _ _ _ _ _ _ _ _ H NR) as HK.
@@ -1075,28 +1093,33 @@ Proof.
     pose proof (do_validate_probers _ _ _ _ _ _ H) as PB.
     destruct (do_validate_ext _ _ _ _ _ _ H) as (X & HK & _). destruct X.
     repeat split; auto. }
-  assert (RL : forall g r g', socks_ok g -> no_log (c_effs c) = true ->
+  assert (RL : forall g r g', socks_ok g -> no_log (c_effs c) = true -> no_probe_leak c = true ->
             do_reload step e c g = (r, g') -> r <> ROk -> same_but_cache g g').
-  { clear. intros g r g' T NL H NR. unfold do_reload in H.
+  { clear. intros g r g' T NL NPL H NR. unfold do_reload in H.
     destruct (g_insts g) as [|old rest] eqn:GI; [injection H as <- <-; apply same_but_cache_refl|].
     destruct (start_with step e c (i_servers old) g) as [[r1 g1] oi] eqn:S.
     assert (NR1 : r1 <> ROk).
     { intros ->. destruct (start_with_ok_some _ _ _ _ _ _ _ S) as [ni ->]. injection H as <- <-. congruence. }
-    pose proof (start_with_harmless _ _ _ _ _ _ _ _ T NL S NR1) as F.
+    pose proof (start_with_harmless _ _ _ _ _ _ _ _ T NL NPL S NR1) as F.
     destruct r1; [congruence|..]; injection H as <- <-; exact F. }
+  assert (HM2 : match m with Validate | Execute => True
+                | _ => no_log (c_effs c) = true /\ no_probe_leak c = true end).
+  { destruct m; try exact I; apply andb_true_iff in HM; exact HM. }
   destruct m; simpl in H.
-  - unfold do_load in H. destruct (start_with step e c [] g) as [[r1 g1] oi] eqn:S.
+  - destruct HM2 as [HL HP].
+    unfold do_load in H. destruct (start_with step e c [] g) as [[r1 g1] oi] eqn:S.
     assert (NR1 : r1 <> ROk).
     { intros ->. destruct (start_with_ok_some _ _ _ _ _ _ _ S) as [ni ->]. injection H as <- <-. congruence. }
-    pose proof (start_with_harmless step e c [] g r1 g1 oi T HM S NR1) as F.
+    pose proof (start_with_harmless step e c [] g r1 g1 oi T HL HP S NR1) as F.
     destruct r1; [congruence|..]; injection H as <- <-; exact F.
   - eapply VL; eauto.
-  - eapply RL; eauto.
+  - destruct HM2 as [HL HP]. eapply RL; eauto.
   - rewrite do_sigusr1_unfold in H. destruct (g_insts g) as [|old rest] eqn:GI; [injection H as <- <-; apply same_but_cache_refl|].
     destruct (do_reload step e c (set_hooks g [])) as [r1 g1] eqn:R.
     assert (r1 <> ROk) as NR1 by (destruct r1; injection H as <- <-; congruence).
     assert (T' : socks_ok (set_hooks g [])) by exact T.
-    destruct (RL _ _ _ T' HM R NR1) as (A1 & A2 & A3 & A4 & A5 & A6 & A7). simpl in *.
+    destruct HM2 as [HL HP].
+    destruct (RL _ _ _ T' HL HP R NR1) as (A1 & A2 & A3 & A4 & A5 & A6 & A7). simpl in *.
     destruct r1; injection H as <- <-; try congruence; repeat split; simpl; auto.
   - eapply VL; eauto.
 Qed.
@@ -1780,57 +1803,68 @@ Proof.
 Qed.
 
 (* ------------------------------------------------------------------ health-check workers *)
-(* FULL: whatever fails, in whatever mode, however far it got, the list of running health-check workers is
-   exactly as before (nothing is started while directives are parsed; what the startup callbacks of a
-   configuration started is stopped again when its start then fails) *)
-Theorem failed_attempt_probers m step e c g r g' :
-  attempt m step e c g = (r, g') -> r <> ROk -> g_probers g' = g_probers g.
+(* a failed attempt leaves the list of running health-check workers exactly as before unless it got as far as
+   startServers with a proxy health check set up and a listener that fails to bind: nothing is started while
+   directives are parsed, the workers are started by the last startup callbacks *)
+Definition probe_safe (m : mode) (c : cfg) : bool :=
+  match m with Validate | Execute => true | _ => no_probe_leak c end.
+
+Lemma failed_attempt_probers0 m step e c g r g' :
+  probe_safe m c = true -> attempt m step e c g = (r, g') -> r <> ROk -> g_probers g' = g_probers g.
 Proof.
-  assert (RL : forall g r g', do_reload step e c g = (r, g') -> r <> ROk -> g_probers g' = g_probers g).
-  { clear. intros g r g' H NR. unfold do_reload in H.
+  assert (RL : no_probe_leak c = true -> forall g r g', do_reload step e c g = (r, g') -> r <> ROk -> g_probers g' = g_probers g).
+  { clear. intros NPL g r g' H NR. unfold do_reload in H.
     destruct (g_insts g) as [|old rest]; [injection H as <- <-; reflexivity|].
     destruct (start_with step e c (i_servers old) g) as [[r1 g1] oi] eqn:S.
     assert (NR1 : r1 <> ROk).
     { intros ->. destruct (start_with_ok_some _ _ _ _ _ _ _ S) as [ni ->]. injection H as <- <-. congruence. }
-    pose proof (start_with_failed_probers _ _ _ _ _ _ _ _ S NR1) as PB.
+    pose proof (start_with_failed_probers _ _ _ _ _ _ _ _ NPL S NR1) as PB.
     destruct r1; [congruence|..]; injection H as <- <-; exact PB. }
-  destruct m; simpl; intros H NR.
+  destruct m; simpl; intros PS H NR.
   - unfold do_load in H. destruct (start_with step e c [] g) as [[r1 g1] oi] eqn:S.
     assert (NR1 : r1 <> ROk).
     { intros ->. destruct (start_with_ok_some _ _ _ _ _ _ _ S) as [ni ->]. injection H as <- <-. congruence. }
-    pose proof (start_with_failed_probers _ _ _ _ _ _ _ _ S NR1) as PB.
+    pose proof (start_with_failed_probers _ _ _ _ _ _ _ _ PS S NR1) as PB.
     destruct r1; [congruence|..]; injection H as <- <-; exact PB.
   - eapply do_validate_probers; eauto.
   - eapply RL; eauto.
   - rewrite do_sigusr1_unfold in H. destruct (g_insts g) as [|old rest]; [injection H as <- <-; reflexivity|].
     destruct (do_reload step e c (set_hooks g [])) as [r1 g1] eqn:R.
     assert (r1 <> ROk) as NR1 by (destruct r1; injection H as <- <-; congruence).
-    pose proof (RL _ _ _ R NR1) as PB. simpl in PB.
+    pose proof (RL PS _ _ _ R NR1) as PB. simpl in PB.
     destruct r1; injection H as <- <-; try congruence; exact PB.
   - eapply do_validate_probers; eauto.
 Qed.
+
+(* ... stated on the part of the configuration the attempt reaches: a configuration rejected by a directive
+   reaches no listener *)
+Theorem failed_attempt_probers m step e c g r g' :
+  probe_safe m (reached c) = true -> attempt m step e c g = (r, g') -> r <> ROk -> g_probers g' = g_probers g.
+Proof. intros PS H NR. rewrite attempt_reached in H. eapply failed_attempt_probers0; eauto. Qed.
 
 (* a validation and an API-driven execution of the directives start nothing even when they succeed *)
 Theorem validate_starts_nothing m step e c g r g' :
   (m = Validate \/ m = Execute) -> attempt m step e c g = (r, g') -> g_probers g' = g_probers g.
 Proof. intros [-> | ->] H; simpl in H; eapply do_validate_probers; eauto. Qed.
 
-(* ------------------------------------------------------------------ the state without the leaking registry *)
+(* ------------------------------------------------------------------ the state without the leaking registries *)
 (* FULL, no side condition: whatever fails, however far it got, the instance list, the hook registry, the mutex,
-   the socket table with its descriptor counts, the name supply and the list of running health-check workers
-   are exactly as before; the one registry that is still written to only GROWS (rollers are added, never
-   changed) *)
+   the socket table with its descriptor counts and the name supply are exactly as before; the two registries
+   that startup callbacks write to only GROW (rollers are added, never changed; workers are added for this step,
+   never stopped), and the worker list is untouched unless the attempt got as far as startServers with a proxy
+   health check set up and a listener that fails to bind *)
 Theorem failed_attempt_frame_without_rollers m step e c g r g' :
   wf g -> attempt m step e c g = (r, g') -> r <> ROk ->
   same_but_leaks g g' /\
   (forall f x, assoc f (g_rollers g) = Some x -> assoc f (g_rollers g') = Some x) /\
-  g_probers g' = g_probers g.
+  (exists k, g_probers g' = g_probers g ++ repeat step k) /\
+  (probe_safe m (reached c) = true -> g_probers g' = g_probers g).
 Proof.
   intros (W & T & C) H NR. destruct (failed_attempt_grow _ _ _ _ _ _ _ H NR) as [G1 G2 G3 G5 G6].
   destruct (failed_attempt_socks _ _ _ _ _ _ _ T H NR) as [S1 S2].
   pose proof (failed_attempt_hooks _ _ _ _ _ _ _ H NR) as HK.
-  split; [repeat split; assumption|]. split; [exact G5|].
-  eapply failed_attempt_probers; eauto.
+  split; [repeat split; assumption|]. split; [exact G5|]. split; [exact G6|].
+  intros PS. eapply failed_attempt_probers; eauto.
 Qed.
 
 Lemma same_but_leaks_refl g : same_but_leaks g g.
@@ -1927,7 +1961,7 @@ Proof.
     destruct (start_servers old (c_addrs c) g2 []) as [[r3 g3] srv] eqn:S2.
     rewrite (start_servers_any_rp _ _ _ _ _ _ _ R1 P1 S2).
     destruct r3; intros B; injection B as <- <- <-;
-      [exists R1, (P1 ++ probes_of step (c_effs c))|exists R1, P1|exists R1, P1]; reflexivity. }
+      exists R1, (P1 ++ probes_of step (c_effs c)); reflexivity. }
   destruct BB as (R1 & P1 & B2). rewrite B2.
   destruct r0; injection H as <- <- <-; exists R1, P1; reflexivity.
 Qed.
@@ -2023,7 +2057,7 @@ Proof.
   cbn [with_panic c_effs].
   pose proof (cut_bad_bad_tail (c_effs c)) as CB.
   destruct (cut_bad (c_effs c ++ [EBad])) as [pre bad]. simpl in CB. subst bad.
-  cbn [c_effs]. destruct m; try reflexivity; apply no_log_filter_bad.
+  cbn [c_effs c_addrs existsb negb]. destruct m; try reflexivity; rewrite no_log_filter_bad, orb_true_r; reflexivity.
 Qed.
 
 (* FULL frame for the contained panic: it fails, and the ENTIRE state is as before up to what the transparent
@@ -2042,46 +2076,44 @@ Proof. intros (A1 & A2 & A3 & A4 & A5 & A6 & A7). repeat split; assumption. Qed.
 
 (* over ALL histories of attempts that fail (every mode, every kind of failure at every stage, contained panics
    included) and of file rewrites, without any side condition on the configurations: the state is the state
-   before up to the cache and the roller map — the worker list included —, so every later attempt has the
-   outcome it has without the failures, and the same effect on everything but the cache, the roller map and
-   the worker list *)
+   before up to the cache, the roller map and the worker list, so every later attempt has the outcome it has
+   without the failures, and the same effect on everything but these three *)
 Theorem run_failures_same_but_leaks h : forall step e g rs e' g',
   wf g -> run step h (e, g) = (rs, (e', g')) ->
-  attempts_failed h rs -> same_but_leaks g g' /\ g_probers g' = g_probers g /\ wf g' /\ e' = writes h e.
+  attempts_failed h rs -> same_but_leaks g g' /\ wf g' /\ e' = writes h e.
 Proof.
   induction h as [|o h IH]; intros step e g rs e' g' W R AF; simpl in R.
-  - injection R as <- <- <-. split; [apply same_but_leaks_refl|]. split; [reflexivity|]. split; [exact W|reflexivity].
+  - injection R as <- <- <-. split; [apply same_but_leaks_refl|]. split; [exact W|reflexivity].
   - destruct (step_op step o (e, g)) as [x [e1 g1]] eqn:S.
     destruct (run (step + 1) h (e1, g1)) as [xs [e2 g2]] eqn:R2.
     injection R as <- <- <-.
     destruct o as [m c|f hf|sg c]; simpl in S.
     + destruct (attempt m step e c g) as [r ga] eqn:A. injection S as <- <- <-.
       simpl in AF. destruct AF as [NR AF].
-      destruct (failed_attempt_frame_without_rollers _ _ _ _ _ _ _ W A NR) as (SB & _ & PB).
+      pose proof (failed_attempt_same_but_leaks _ _ _ _ _ _ _ W A NR) as SB.
       pose proof (attempt_wf _ _ _ _ _ _ _ W A) as Wa.
-      destruct (IH _ _ _ _ _ _ Wa R2 AF) as (SB2 & PB2 & W2 & E2).
-      split; [eapply same_but_leaks_trans; eauto|]. split; [congruence|]. split; [exact W2|exact E2].
+      destruct (IH _ _ _ _ _ _ Wa R2 AF) as (SB2 & W2 & E2).
+      split; [eapply same_but_leaks_trans; eauto|]. split; [exact W2|exact E2].
     + injection S as <- <- <-. simpl in AF. simpl. eapply IH; eauto.
     + destruct (attempt_panic sg step e c g) as [r ga] eqn:A. injection S as <- <- <-.
       simpl in AF. destruct AF as [NR AF].
       destruct (contained_panic_frame _ _ _ _ _ _ _ W A) as [_ SC].
       pose proof (attempt_panic_wf _ _ _ _ _ _ _ W A) as Wa.
-      destruct (IH _ _ _ _ _ _ Wa R2 AF) as (SB2 & PB2 & W2 & E2).
+      destruct (IH _ _ _ _ _ _ Wa R2 AF) as (SB2 & W2 & E2).
       split; [eapply same_but_leaks_trans; [apply same_but_cache_leaks; exact SC|exact SB2]|].
-      split; [|split; [exact W2|exact E2]].
-      destruct SC as (_ & _ & _ & _ & _ & _ & P7). congruence.
+      split; [exact W2|exact E2].
 Qed.
 
 Theorem valid_after_failures_without_rollers h step0 e g rs e' g' :
   wf g ->
   run step0 h (e, g) = (rs, (e', g')) -> attempts_failed h rs ->
-  same_but_leaks g g' /\ g_probers g' = g_probers g /\ e' = writes h e /\
+  same_but_leaks g g' /\ e' = writes h e /\
   forall m step v r ga, attempt m step (writes h e) v g = (r, ga) ->
   exists gb, attempt m step e' v g' = (r, gb) /\ same_but_leaks ga gb.
 Proof.
   intros W R AF.
-  destruct (run_failures_same_but_leaks h step0 e g rs e' g' W R AF) as (SB & PB & W' & ->).
-  split; [exact SB|]. split; [exact PB|]. split; [reflexivity|].
+  destruct (run_failures_same_but_leaks h step0 e g rs e' g' W R AF) as (SB & W' & ->).
+  split; [exact SB|]. split; [reflexivity|].
   intros m step v r ga A.
   destruct W as (_ & _ & C). destruct W' as (_ & _ & C').
   destruct (attempt_ignores_leaks m step (writes h e) v g g' r ga C C' SB A) as (gb & A' & SB' & _).
@@ -2089,17 +2121,33 @@ Proof.
 Qed.
 
 (* ------------------------------------------------------------------ health-check workers: the former witnesses *)
+(* what the repair of F-C08-5 achieves (nothing is started while directives are parsed, by a validation, or by a
+   configuration that a directive rejects) ... *)
 Lemma health_checkers_witness :
-  (exists g', attempt Load 1 [] (mkcfg 1 [EProxy] [ABusy]) g0 = (RErr, g') /\ g_probers g' = []) /\
   (exists g', attempt Validate 1 [] (mkcfg 1 [EProxy; EBad] [AEph 1]) g0 = (RErr, g') /\ g_probers g' = []) /\
   (exists g', attempt Validate 1 [] (mkcfg 1 [EProxy] [AEph 1]) g0 = (ROk, g') /\ g_probers g' = []) /\
+  (exists g', attempt Load 1 [] (mkcfg 1 [EProxy; EBad] [AEph 1; ABusy]) g0 = (RErr, g') /\ g_probers g' = []) /\
+  (exists g', attempt Load 1 [] (mkcfg 1 [ELog 1 1 false; EProxy] [AEph 1]) g0 = (RErr, g') /\ g_probers g' = []) /\
   (exists g1 g2, attempt Load 1 [] (mkcfg 1 [EProxy] [AEph 1]) g0 = (ROk, g1) /\ g_probers g1 = [1] /\
                  attempt Reload 2 [] (mkcfg 2 [EProxy; EBad] [AEph 1]) g1 = (RErr, g2) /\ g_probers g2 = [1]) /\
-  (exists g1 g2, attempt Load 1 [] (mkcfg 1 [EProxy] [AEph 1]) g0 = (ROk, g1) /\
-                 attempt Sigusr1 2 [] (mkcfg 2 [EProxy] [AEph 1; ABusy]) g1 = (RErr, g2) /\ g_probers g2 = [1]) /\
+  (exists g1 g2, attempt Load 1 [] (mkcfg 1 [EProxy] [AEph 1]) g0 = (ROk, g1) /\ g_probers g1 = [1] /\
+                 attempt Sigusr1 2 [] (mkcfg 2 [EProxy; EBad] [AEph 1]) g1 = (RErr, g2) /\ g_probers g2 = [1]) /\
   (* and a reload that succeeds stops the workers of the instance it replaces *)
   (exists g1 g2, attempt Load 1 [] (mkcfg 1 [EProxy] [AEph 1]) g0 = (ROk, g1) /\
                  attempt Reload 2 [] (mkcfg 2 [EProxy] [AEph 1]) g1 = (ROk, g2) /\ g_probers g2 = [2]).
+Proof.
+  repeat split; try (eexists; vm_compute; split; reflexivity);
+    eexists; eexists; vm_compute; repeat split; reflexivity.
+Qed.
+
+(* ... and what is left (F-C08-5f): a listener that fails to bind AFTER the startup callbacks ran leaves the
+   workers of the rejected configuration running - nothing runs the shutdown callbacks of a discarded instance *)
+Lemma health_checkers_refuted :
+  (exists g', attempt Load 1 [] (mkcfg 1 [EProxy] [ABusy]) g0 = (RErr, g') /\ g_probers g' = [1]) /\
+  (exists g1 g2, attempt Load 1 [] (mkcfg 1 [EProxy] [AEph 1]) g0 = (ROk, g1) /\ g_probers g1 = [1] /\
+                 attempt Reload 2 [] (mkcfg 2 [EProxy] [AEph 1; ABusy]) g1 = (RErr, g2) /\ g_probers g2 = [1; 2]) /\
+  (exists g1 g2, attempt Load 1 [] (mkcfg 1 [EProxy] [AEph 1]) g0 = (ROk, g1) /\
+                 attempt Sigusr1 2 [] (mkcfg 2 [EProxy] [AEph 1; ABusy]) g1 = (RErr, g2) /\ g_probers g2 = [1; 2]).
 Proof.
   repeat split; try (eexists; vm_compute; split; reflexivity);
     eexists; eexists; vm_compute; repeat split; reflexivity.
